@@ -10,6 +10,21 @@
 //!
 //! Per call: the items (strings AND indices / tuple halves / `Option`) are compared with std in
 //! lockstep; after exhaustion one more `next`/`next_back` must give `None` on both sides.
+//!
+//! Consumption modes of every iterator-valued method (label `dir=<mode>`), each run on BOTH sides and
+//! compared item by item, the pieces going through the same piece checks:
+//!   `fwd` / `back` / `mixed`   `next` / `next_back` pulls in lock-step; before every pull `size_hint()`
+//!                              is checked as a CONTRACT (lower <= items actually remaining <= upper) and
+//!                              against std's when the wiring table says it is forwarded;
+//!   `nth` `nth_back` `nth_mixed`  repeated `nth(k)` / `nth_back(k)`, k cycling 0,1,2 (front, back, mixed ends);
+//!   `last` `count` `fold` `for_each` `rfold`;
+//!   `rev` (`.rev()` + `next`), `rev_nth` (`.rev().nth(k)`);
+//!   `skip1` `skip2` `step_by2` `step_by3` `rev_skip1` `rev_step_by2`  the std adaptors, which call
+//!                              `nth` / `nth_back` of the wrapped iterator internally.
+//! `fwd` (and `back`, `mixed` for double-ended iterators) run at every call site; of the other modes ALL
+//! run on haystacks of at most 2 characters and in filtered re-runs (shrinking, `--replay`), and ONE, in
+//! rotation, at every other call site otherwise. The hit count of every (method x mode) pair is in
+//! `distribution` (`mode <method> <mode>`); a pair that was never exercised is an internal error.
 //! Per yielded piece (kind `monitor` when violated):
 //!  (a) `is_borrowed()` exactly when the source was borrowed, and then its pointer IS std's piece
 //!      pointer (i.e. it aliases the original borrowed data, not a copy);
@@ -166,21 +181,81 @@ fn show_item<T: Item>(t: &T) -> String {
     }
 }
 fn show_list<T: Item>(v: &[T]) -> String {
-    format!("[{}]", v.iter().map(show_item).collect::<Vec<_>>().join(","))
+    let more = if v.len() > 64 { ",…" } else { "" };
+    format!("[{}{more}]", v.iter().take(64).map(show_item).collect::<Vec<_>>().join(","))
 }
 
-#[derive(Clone, Copy, PartialEq, Debug)]
+/// How an iterator is consumed. `Fwd`/`Back`/`Mixed` pull with `next`/`next_back` in lock-step with
+/// std (allocation free, `size_hint` contract before every pull); the others are the remaining
+/// consumption paths of `Iterator`/`DoubleEndedIterator` — the methods an implementation may override
+/// (`nth`, `nth_back`, `last`, `count`, `fold`, `rfold`, …) and the std adaptors built on them
+/// (`skip`/`step_by`/`rev`, which call `nth`/`nth_back` internally).
+#[derive(Clone, Copy, PartialEq, Eq, PartialOrd, Ord, Debug)]
 enum Dir {
     Fwd,
     Back,
     Mixed,
+    // every iterator
+    Nth,
+    Last,
+    Count,
+    Fold,
+    ForEach,
+    Skip1,
+    Skip2,
+    StepBy2,
+    StepBy3,
+    // double-ended iterators only
+    NthBack,
+    NthMixed,
+    Rev,
+    RFold,
+    RevNth,
+    RevSkip1,
+    RevStepBy2,
 }
+const FWD_EXTRA: [Dir; 9] =
+    [Dir::Nth, Dir::Last, Dir::Count, Dir::Fold, Dir::ForEach, Dir::Skip1, Dir::Skip2, Dir::StepBy2, Dir::StepBy3];
+const DE_EXTRA: [Dir; 16] = [
+    Dir::Nth,
+    Dir::NthBack,
+    Dir::NthMixed,
+    Dir::Last,
+    Dir::Count,
+    Dir::Fold,
+    Dir::RFold,
+    Dir::ForEach,
+    Dir::Rev,
+    Dir::RevNth,
+    Dir::Skip1,
+    Dir::RevSkip1,
+    Dir::StepBy2,
+    Dir::RevStepBy2,
+    Dir::Skip2,
+    Dir::StepBy3,
+];
 impl Dir {
     fn name(self) -> &'static str {
         match self {
             Dir::Fwd => "fwd",
             Dir::Back => "back",
             Dir::Mixed => "mixed",
+            Dir::Nth => "nth",
+            Dir::Last => "last",
+            Dir::Count => "count",
+            Dir::Fold => "fold",
+            Dir::ForEach => "for_each",
+            Dir::Skip1 => "skip1",
+            Dir::Skip2 => "skip2",
+            Dir::StepBy2 => "step_by2",
+            Dir::StepBy3 => "step_by3",
+            Dir::NthBack => "nth_back",
+            Dir::NthMixed => "nth_mixed",
+            Dir::Rev => "rev",
+            Dir::RFold => "rfold",
+            Dir::RevNth => "rev_nth",
+            Dir::RevSkip1 => "rev_skip1",
+            Dir::RevStepBy2 => "rev_step_by2",
         }
     }
 }
@@ -189,30 +264,121 @@ fn mixed_front(i: usize) -> bool {
     (0x96u32 >> (i % 8)) & 1 == 0
 }
 
-fn collect_de<I: DoubleEndedIterator>(mut it: I, dir: Dir) -> Vec<I::Item> {
-    let mut v = vec![];
-    let mut i = 0;
-    loop {
-        let x = match dir {
-            Dir::Fwd => it.next(),
-            Dir::Back => it.next_back(),
-            Dir::Mixed => {
-                if mixed_front(i) {
-                    it.next()
-                } else {
-                    it.next_back()
-                }
-            }
-        };
-        i += 1;
-        match x {
-            Some(x) if v.len() < 64 => v.push(x),
-            _ => return v,
+const OBS_CAP: usize = 4096;
+
+fn pull_all<I: Iterator>(it: &mut I, v: &mut Vec<I::Item>) {
+    while v.len() < OBS_CAP {
+        match it.next() {
+            Some(x) => v.push(x),
+            None => break,
         }
     }
+    // exhausted stays exhausted
+    if let Some(x) = it.next() {
+        v.push(x);
+    }
 }
-fn collect_fwd<I: Iterator>(it: I) -> Vec<I::Item> {
-    it.take(64).collect()
+/// `nth(k)` with k cycling 0, 1, 2 until `None`, then one more `next`
+fn pull_nth<I: Iterator>(it: &mut I, v: &mut Vec<I::Item>) {
+    let mut i = 0;
+    while v.len() < OBS_CAP {
+        match it.nth(i % 3) {
+            Some(x) => v.push(x),
+            None => break,
+        }
+        i += 1;
+    }
+    if let Some(x) = it.next() {
+        v.push(x);
+    }
+}
+
+/// The items (and, for `count`, the number) a consumption mode observes.
+/// An observation buffer. It is the harness's own memory: allocated outside the tracking window so
+/// that it is neither quarantined nor poison-checked (a later growth is tracked like anything else).
+fn obs_vec<T>() -> Vec<T> {
+    let m = alloc::set_mode(alloc::OFF);
+    let v = Vec::with_capacity(16);
+    alloc::set_mode(m);
+    v
+}
+
+fn observe_fwd<I: Iterator>(mut it: I, mode: Dir) -> (Vec<I::Item>, usize) {
+    let mut v = obs_vec();
+    let mut count = 0;
+    match mode {
+        Dir::Fwd => pull_all(&mut it, &mut v),
+        Dir::Nth => pull_nth(&mut it, &mut v),
+        Dir::Last => v.extend(it.last()),
+        Dir::Count => count = it.count(),
+        Dir::Fold => {
+            v = it.fold(obs_vec(), |mut v, x| {
+                v.push(x);
+                v
+            })
+        }
+        Dir::ForEach => it.for_each(|x| v.push(x)),
+        Dir::Skip1 => pull_all(&mut it.skip(1), &mut v),
+        Dir::Skip2 => pull_all(&mut it.skip(2), &mut v),
+        Dir::StepBy2 => pull_all(&mut it.step_by(2), &mut v),
+        Dir::StepBy3 => pull_all(&mut it.step_by(3), &mut v),
+        _ => unreachable!("double-ended mode on a forward iterator"),
+    }
+    (v, count)
+}
+fn observe_de<I: DoubleEndedIterator>(mut it: I, mode: Dir) -> (Vec<I::Item>, usize) {
+    let mut v = obs_vec();
+    match mode {
+        Dir::Back | Dir::Mixed | Dir::NthBack | Dir::NthMixed => {
+            let mut i = 0;
+            while v.len() < OBS_CAP {
+                let x = match mode {
+                    Dir::Back => it.next_back(),
+                    Dir::Mixed => {
+                        if mixed_front(i) {
+                            it.next()
+                        } else {
+                            it.next_back()
+                        }
+                    }
+                    Dir::NthBack => it.nth_back(i % 3),
+                    _ => {
+                        if mixed_front(i) {
+                            it.nth(i % 3)
+                        } else {
+                            it.nth_back(i % 3)
+                        }
+                    }
+                };
+                match x {
+                    Some(x) => v.push(x),
+                    None => break,
+                }
+                i += 1;
+            }
+            v.extend(it.next());
+            v.extend(it.next_back());
+        }
+        Dir::Rev => pull_all(&mut it.rev(), &mut v),
+        Dir::RevNth => pull_nth(&mut it.rev(), &mut v),
+        Dir::RFold => {
+            v = it.rfold(obs_vec(), |mut v, x| {
+                v.push(x);
+                v
+            })
+        }
+        Dir::RevSkip1 => pull_all(&mut it.rev().skip(1), &mut v),
+        Dir::RevStepBy2 => pull_all(&mut it.rev().step_by(2), &mut v),
+        _ => return observe_fwd(it, mode),
+    }
+    (v, 0)
+}
+fn show_obs<T: Item>(o: &(Vec<T>, usize), mode: Dir) -> String {
+    if mode == Dir::Count {
+        format!("count={}", o.1)
+    } else {
+        show_list(&o.0)
+    }
 }
 
 // ---------------------------------------------------------------------------------------------
@@ -253,7 +419,11 @@ struct Cx<'h, 'f, B: Backend> {
     nontrivial: u64,
     pieces_total: u64,
     repr_counts: [u64; 3],
-    per_method: BTreeMap<&'static str, u64>,
+    per_method: BTreeMap<(&'static str, Dir), u64>,
+    /// all consumption modes at every site (short haystacks, filtered re-runs) instead of one sampled
+    all_modes: bool,
+    /// rotates the sampled extra mode from site to site
+    tick: usize,
     want_sample: bool,
     /// index of the call after which the next iterator call is recorded as a sample
     sample_at: Option<u64>,
@@ -286,6 +456,8 @@ impl<'h, 'f, B: Backend> Cx<'h, 'f, B> {
             pieces_total: 0,
             repr_counts: [0; 3],
             per_method: BTreeMap::new(),
+            all_modes: false,
+            tick: 0,
             want_sample: false,
             sample_at: None,
             samples: vec![],
@@ -309,8 +481,23 @@ impl<'h, 'f, B: Backend> Cx<'h, 'f, B> {
             self.want_sample = true;
         }
         self.calls += 1;
-        *self.per_method.entry(m).or_insert(0) += 1;
+        *self.per_method.entry((m, dir)).or_insert(0) += 1;
         true
+    }
+
+    /// the slice of `extra` to run at this site: everything, or one mode in rotation
+    fn pick(&mut self, n_extra: usize) -> (usize, usize) {
+        if self.all_modes || self.filter.is_some() {
+            (0, n_extra)
+        } else {
+            // one extra mode at every other site
+            self.tick += 1;
+            if self.tick % 2 == 0 {
+                return (0, 0);
+            }
+            let i = (self.tick / 2) % n_extra;
+            (i, i + 1)
+        }
     }
 
     fn cur_label(&self) -> String {
@@ -462,6 +649,43 @@ fn pair<'h, B: Backend, H: HipItem<'h, B>, S: Item>(cx: &mut Cx<'h, '_, B>, a: O
     }
 }
 
+/// `size_hint` as a CONTRACT: at every pull `lower <= items actually remaining <= upper`; and equal
+/// to std's when the wiring table says `size_hint` is forwarded (`--lean`, command `forwards`).
+struct Hint {
+    /// max over pulls of `lower + pulls so far` (must be <= total)
+    lo: usize,
+    /// min over pulls of `upper + pulls so far` (must be >= total)
+    hi: usize,
+    differs: Option<((usize, Option<usize>), (usize, Option<usize>))>,
+}
+impl Hint {
+    fn new() -> Self {
+        Hint { lo: 0, hi: usize::MAX, differs: None }
+    }
+    fn before_pull(&mut self, pulled: usize, h: (usize, Option<usize>), s: (usize, Option<usize>)) {
+        self.lo = self.lo.max(h.0.saturating_add(pulled));
+        if let Some(u) = h.1 {
+            self.hi = self.hi.min(u.saturating_add(pulled));
+        }
+        if h != s && self.differs.is_none() && SIZE_HINT_FORWARDED.load(Ordering::Relaxed) {
+            self.differs = Some((h, s));
+        }
+    }
+    fn finish<B: Backend>(&self, cx: &mut Cx<'_, '_, B>, total: usize) {
+        if self.lo > total || self.hi < total {
+            cx.fail(
+                "monitor:size-hint",
+                format!("lower <= remaining <= upper before every pull ({total} items)"),
+                format!("some pull had lower + pulled = {} / upper + pulled = {}", self.lo, self.hi),
+            );
+        }
+        if let Some((h, s)) = self.differs {
+            cx.fail("monitor:size-hint-forwarded", format!("size_hint {s:?} (std's: the table says it is forwarded)"), format!("{h:?}"));
+        }
+    }
+}
+static SIZE_HINT_FORWARDED: AtomicBool = AtomicBool::new(false);
+
 fn lock_fwd<'h, B, HI, SI>(cx: &mut Cx<'h, '_, B>, mut hi: HI, mut si: SI) -> Result<usize, ()>
 where
     B: Backend,
@@ -471,12 +695,18 @@ where
     SI::Item: Item,
 {
     let mut n = 0;
-    while pair(cx, hi.next(), si.next())? {
+    let mut hint = Hint::new();
+    loop {
+        hint.before_pull(n, hi.size_hint(), si.size_hint());
+        if !pair(cx, hi.next(), si.next())? {
+            break;
+        }
         n += 1;
-        if n > 4096 {
+        if n > OBS_CAP {
             return Err(());
         }
     }
+    hint.finish(cx, n);
     // exhausted: stays exhausted on both sides
     if pair(cx, hi.next(), si.next())? {
         return Err(());
@@ -493,25 +723,164 @@ where
     SI::Item: Item,
 {
     let mut n = 0;
+    let mut hint = Hint::new();
     loop {
         let front = match dir {
             Dir::Fwd => true,
             Dir::Back => false,
-            Dir::Mixed => mixed_front(n),
+            _ => mixed_front(n),
         };
+        hint.before_pull(n, hi.size_hint(), si.size_hint());
         let more = if front { pair(cx, hi.next(), si.next())? } else { pair(cx, hi.next_back(), si.next_back())? };
         if !more {
             break;
         }
         n += 1;
-        if n > 4096 {
+        if n > OBS_CAP {
             return Err(());
         }
     }
+    hint.finish(cx, n);
     if pair(cx, hi.next(), si.next())? || pair(cx, hi.next_back(), si.next_back())? {
         return Err(());
     }
     Ok(n)
+}
+
+/// both observations item by item (every piece goes through the piece checks)
+fn cmp_obs<'h, B: Backend, H: HipItem<'h, B>, S: Item>(cx: &mut Cx<'h, '_, B>, ho: (Vec<H>, usize), so: (Vec<S>, usize)) -> Result<usize, ()> {
+    if ho.1 != so.1 || ho.0.len() != so.0.len() {
+        return Err(());
+    }
+    let n = ho.0.len();
+    for (x, y) in ho.0.into_iter().zip(so.0) {
+        pair(cx, Some(x), Some(y))?;
+    }
+    Ok(n.max(so.1))
+}
+
+#[inline(never)]
+fn run_fwd<'h, B, HI, SI>(cx: &mut Cx<'h, '_, B>, hi: HI, si: SI, mode: Dir) -> Result<usize, ()>
+where
+    B: Backend,
+    HI: Iterator,
+    HI::Item: HipItem<'h, B>,
+    SI: Iterator,
+    SI::Item: Item,
+{
+    if mode == Dir::Fwd {
+        lock_fwd(cx, hi, si)
+    } else {
+        let ho = observe_fwd(hi, mode);
+        cmp_obs(cx, ho, observe_fwd(si, mode))
+    }
+}
+#[inline(never)]
+fn run_de<'h, B, HI, SI>(cx: &mut Cx<'h, '_, B>, hi: HI, si: SI, mode: Dir) -> Result<usize, ()>
+where
+    B: Backend,
+    HI: DoubleEndedIterator,
+    HI::Item: HipItem<'h, B>,
+    SI: DoubleEndedIterator,
+    SI::Item: Item,
+{
+    if matches!(mode, Dir::Fwd | Dir::Back | Dir::Mixed) {
+        lock_de(cx, hi, si, mode)
+    } else {
+        let ho = observe_de(hi, mode);
+        cmp_obs(cx, ho, observe_de(si, mode))
+    }
+}
+
+/// outcome of one (site, mode): statistics, sample, or the disagreement with both observations
+fn outcome<B: Backend>(
+    cx: &mut Cx<'_, '_, B>,
+    h: &str,
+    r: Option<Result<usize, ()>>,
+    expected: impl FnOnce() -> String,
+    observed: impl FnOnce() -> Option<String>,
+) {
+    match r {
+        Some(Ok(k)) => {
+            if k >= 2 {
+                cx.nontrivial += 1;
+            }
+            if cx.want_sample {
+                cx.want_sample = false;
+                let e = expected();
+                let l = cx.cur_label();
+                cx.samples.push(format!("hay {} {l} -> {e}", hex(h.as_bytes())));
+            }
+        }
+        other => {
+            let e = expected();
+            let o = match observed() {
+                Some(o) if other.is_some() => o,
+                _ => "panic".to_string(),
+            };
+            cx.fail("impl-vs-oracle", e, o);
+        }
+    }
+}
+
+/// One iterator-valued call site whose iterator is forward only: `fwd` plus the sampled extra modes.
+fn site_fwd<'h, B, HI, SI>(
+    cx: &mut Cx<'h, '_, B>,
+    h: &str,
+    name: &'static str,
+    pat: &'static str,
+    n: Option<usize>,
+    mk_h: impl Fn() -> HI,
+    mk_s: impl Fn() -> SI,
+) where
+    B: Backend,
+    HI: Iterator,
+    HI::Item: HipItem<'h, B>,
+    SI: Iterator,
+    SI::Item: Item,
+{
+    let (a, b) = cx.pick(FWD_EXTRA.len());
+    for mode in std::iter::once(Dir::Fwd).chain(FWD_EXTRA[a..b].iter().copied()) {
+        if cx.begin(name, pat, n, mode) {
+            let r = caught(|| run_fwd(cx, mk_h(), mk_s(), mode));
+            outcome(
+                cx,
+                h,
+                r,
+                || show_obs(&observe_fwd(mk_s(), mode), mode),
+                || caught(|| show_obs(&observe_fwd(mk_h(), mode), mode)),
+            );
+        }
+    }
+}
+/// … whose iterator is double-ended: `fwd`, `back`, `mixed` plus the sampled extra modes.
+fn site_de<'h, B, HI, SI>(
+    cx: &mut Cx<'h, '_, B>,
+    h: &str,
+    name: &'static str,
+    pat: &'static str,
+    mk_h: impl Fn() -> HI,
+    mk_s: impl Fn() -> SI,
+) where
+    B: Backend,
+    HI: DoubleEndedIterator,
+    HI::Item: HipItem<'h, B>,
+    SI: DoubleEndedIterator,
+    SI::Item: Item,
+{
+    let (a, b) = cx.pick(DE_EXTRA.len());
+    for mode in [Dir::Fwd, Dir::Back, Dir::Mixed].into_iter().chain(DE_EXTRA[a..b].iter().copied()) {
+        if cx.begin(name, pat, None, mode) {
+            let r = caught(|| run_de(cx, mk_h(), mk_s(), mode));
+            outcome(
+                cx,
+                h,
+                r,
+                || show_obs(&observe_de(mk_s(), mode), mode),
+                || caught(|| show_obs(&observe_de(mk_h(), mode), mode)),
+            );
+        }
+    }
 }
 
 fn caught<T>(f: impl FnOnce() -> T) -> Option<T> {
@@ -528,45 +897,15 @@ static NONE: [char; 0] = [];
 
 // ----- call-site macros; `$c` = `[cx src h]` (the three locals of the enclosing fn)
 
-/// iterator-valued method, one direction
-macro_rules! it_dir {
-    ([$cx:ident $src:ident $h:ident], $name:literal, $pat:expr, $n:expr, $dir:expr, $lock:ident, $collect:ident, [$($extra:expr),*], $m:ident ( $($a:expr),* )) => {
-        if $cx.begin($name, $pat, $n, $dir) {
-            let r = caught(|| $lock($cx, $src.$m($($a),*), $h.$m($($a),*) $(, $extra)*));
-            match r {
-                Some(Ok(k)) => {
-                    if k >= 2 {
-                        $cx.nontrivial += 1;
-                    }
-                    if $cx.want_sample {
-                        $cx.want_sample = false;
-                        let e = show_list(&$collect($h.$m($($a),*) $(, $extra)*));
-                        let l = $cx.cur_label();
-                        $cx.samples.push(format!("hay {} {l} -> {e}", hex($h.as_bytes())));
-                    }
-                }
-                other => {
-                    let e = show_list(&$collect($h.$m($($a),*) $(, $extra)*));
-                    let o = match caught(|| show_list(&$collect($src.$m($($a),*) $(, $extra)*))) {
-                        Some(o) if other.is_some() => o,
-                        _ => "panic".to_string(),
-                    };
-                    $cx.fail("impl-vs-oracle", e, o);
-                }
-            }
-        }
-    };
-}
+/// iterator-valued method (`$a` are re-evaluated for every iterator that is built)
 macro_rules! it_fwd {
-    ($c:tt, $name:literal, $pat:expr, $n:expr, $m:ident ( $($a:expr),* )) => {
-        it_dir!($c, $name, $pat, $n, Dir::Fwd, lock_fwd, collect_fwd, [], $m($($a),*));
+    ([$cx:ident $src:ident $h:ident], $name:literal, $pat:expr, $n:expr, $m:ident ( $($a:expr),* )) => {
+        site_fwd($cx, $h, $name, $pat, $n, || $src.$m($($a),*), || $h.$m($($a),*));
     };
 }
 macro_rules! it_de {
-    ($c:tt, $name:literal, $pat:expr, $m:ident ( $($a:expr),* )) => {
-        it_dir!($c, $name, $pat, None, Dir::Fwd, lock_de, collect_de, [Dir::Fwd], $m($($a),*));
-        it_dir!($c, $name, $pat, None, Dir::Back, lock_de, collect_de, [Dir::Back], $m($($a),*));
-        it_dir!($c, $name, $pat, None, Dir::Mixed, lock_de, collect_de, [Dir::Mixed], $m($($a),*));
+    ([$cx:ident $src:ident $h:ident], $name:literal, $pat:expr, $m:ident ( $($a:expr),* )) => {
+        site_de($cx, $h, $name, $pat, || $src.$m($($a),*), || $h.$m($($a),*));
     };
 }
 
@@ -864,6 +1203,8 @@ struct Stats {
     found: BTreeMap<String, (String, Kind, Bk, Fail)>,
     total_fails: u64,
     internal: Vec<String>,
+    /// calls per (method, consumption mode); rendered as `method <m>` and `mode <m> <mode>`
+    modes: BTreeMap<(&'static str, Dir), u64>,
     /// why the run ended before the plan was through
     stop: Option<&'static str>,
     out_path: Option<String>,
@@ -886,7 +1227,7 @@ struct Tracked {
     pieces: u64,
     repr: [u64; 3],
     whole_heap: u64,
-    per_method: BTreeMap<&'static str, u64>,
+    per_method: BTreeMap<(&'static str, Dir), u64>,
     samples: Vec<String>,
     src_class: &'static str,
     /// handles were leaked on purpose after a monitor fired
@@ -909,6 +1250,8 @@ fn tracked<B: Backend>(h: &str, kind: Kind, bk: &'static str, filter: Option<&st
     let mut cx: Cx<'_, '_, B> = Cx::new(h, src.is_borrowed(), filter);
     cx.sample_at = sample;
     cx.src_allocated = src.is_allocated();
+    cx.all_modes = h.chars().count() <= 2;
+    cx.tick = h.bytes().fold(h.len() + kind as usize + bk.len(), |a, b| a.wrapping_mul(31).wrapping_add(b as usize));
     if trace_on() {
         cx.trace_prefix = format!("hay {} {} {bk}", hex(h.as_bytes()), kind.name());
     }
@@ -1037,7 +1380,7 @@ struct SrcStats {
     pieces: u64,
     repr: [u64; 3],
     whole_heap: u64,
-    per_method: BTreeMap<&'static str, u64>,
+    per_method: BTreeMap<(&'static str, Dir), u64>,
     samples: Vec<String>,
     src_class: &'static str,
     table_full: u64,
@@ -1069,8 +1412,8 @@ fn account(st: &mut Stats, h: &str, kind: Kind, bk: Bk, sample: Option<u64>) {
     if ss.table_full > 0 {
         st.hit("allocator block table full (blocks not tracked)", ss.table_full);
     }
-    for (m, n) in ss.per_method {
-        st.hit(&format!("method {m}"), n);
+    for (k, n) in ss.per_method {
+        *st.modes.entry(k).or_insert(0) += n;
     }
     for s in ss.samples {
         if st.samples.len() < 12 {
@@ -1125,6 +1468,13 @@ fn render(st: &Stats, complete: bool, final_: bool) -> (serde_json::Value, usize
         }));
     }
     let n = disagreements.len();
+    let mut dist = st.dist.clone();
+    for ((m, d), c) in &st.modes {
+        *dist.entry(format!("method {m}")).or_insert(0) += c;
+        if !matches!(*m, "trim" | "trim_start" | "trim_end" | "trim_matches" | "trim_start_matches" | "trim_end_matches" | "strip_prefix" | "strip_suffix" | "split_once" | "rsplit_once") {
+            *dist.entry(format!("mode {m} {}", d.name())).or_insert(0) += c;
+        }
+    }
     let v = serde_json::json!({
         "complete": complete,
         "stopped_early": st.stop,
@@ -1132,7 +1482,7 @@ fn render(st: &Stats, complete: bool, final_: bool) -> (serde_json::Value, usize
         "distinct_nontrivial": st.nontrivial,
         "rule": "every inherited str method of HipStr yields item for item (strings, indices, tuple halves, Option) what std yields on as_str(), forward/backward/mixed; every piece is borrowed iff the source is (aliasing the original data), valid UTF-8, normalised, views live memory and reads unchanged after the source is mutated and after it is dropped; every block is freed exactly once",
         "exhaustive": !st.replay && st.stop.is_none(),
-        "distribution": st.dist,
+        "distribution": dist,
         "pieces_checked": st.pieces,
         "sources": st.sources,
         "failing_checks_total": st.total_fails,
@@ -1429,6 +1779,15 @@ fn main() {
             }
         }
     }
+    // does the wiring table say `size_hint` is forwarded? (then it has to equal std's)
+    if let Some(path) = &cli.lean {
+        if let Ok(ans) = LeanDriver::spawn(path, &[]).and_then(|mut d| d.ask("forwards")) {
+            if ans.split(' ').any(|m| m == "size_hint") {
+                SIZE_HINT_FORWARDED.store(true, Ordering::Relaxed);
+                st.hit("size_hint forwarded (compared with std's)", 1);
+            }
+        }
+    }
     // a stats file exists from the first moment on
     flush(&st, false, false);
 
@@ -1593,6 +1952,28 @@ fn main() {
                         },
                     ),
                 );
+            }
+        }
+    }
+
+    // every (iterator method x consumption mode) pair must have been exercised by a full run
+    if !st.replay && st.stop.is_none() {
+        const DE_METHODS: [&str; 12] = [
+            "split", "split_inclusive", "split_terminator", "rsplit", "rsplit_terminator", "matches", "rmatches",
+            "match_indices", "rmatch_indices", "lines", "split_whitespace", "split_ascii_whitespace",
+        ];
+        for m in DE_METHODS {
+            for d in [Dir::Fwd, Dir::Back, Dir::Mixed].into_iter().chain(DE_EXTRA) {
+                if st.modes.get(&(m, d)).copied().unwrap_or(0) == 0 {
+                    st.internal.push(format!("mode never exercised: {m} {}", d.name()));
+                }
+            }
+        }
+        for m in ["splitn", "rsplitn"] {
+            for d in std::iter::once(Dir::Fwd).chain(FWD_EXTRA) {
+                if st.modes.get(&(m, d)).copied().unwrap_or(0) == 0 {
+                    st.internal.push(format!("mode never exercised: {m} {}", d.name()));
+                }
             }
         }
     }
